@@ -284,8 +284,8 @@ int main(int argc, char** argv) {
     uint64_t idx = 0;
     const int residue = int(vh::rng_for("residue").below(8));
 
-    const int full = thorough ? 2048 : 512;
-    for (int n = 1; n <= 2048; ++n) {
+    const int full = thorough ? 8192 : 1024;
+    for (int n = 1; n <= 8192; ++n) {
         if (!(n <= full || (n % 8) == residue)) {
             continue;
         }
@@ -293,8 +293,10 @@ int main(int argc, char** argv) {
             continue;
         }
         vh::Rng r = vh::rng_for("ifft", n);
-        check_ifft(n, r);
-        check_irfft(n, r);
+        for (int rep = 0; rep < (thorough ? 3 : 1); ++rep) {
+            check_ifft(n, r);
+            check_irfft(n, r);
+        }
         vh::obs_add("lengths_checked");
     }
     {
@@ -315,7 +317,13 @@ int main(int argc, char** argv) {
     }
 
     //STFT grid
-    std::vector<int> nffts = {8, 16, 32, 64, 128, 256, 512, 1024, 12, 20, 36, 100, 400, 600};
+    std::vector<int> nffts = {8, 16, 32, 64, 128, 256, 512, 1024, 12, 20, 36, 100, 400, 600, 24, 48, 50, 96, 200};
+    if (thorough) {
+        nffts.push_back(2048);
+        nffts.push_back(34);
+        nffts.push_back(250);
+    }
+    const int dense = thorough ? 128 : 64;
     for (int nfft : nffts) {
         std::vector<int> nwins = {nfft};
         if (nfft >= 16) {
@@ -327,7 +335,7 @@ int main(int argc, char** argv) {
         for (int nwin : nwins) {
             const auto wins = windows(nwin);
             std::vector<int> overlaps;
-            if (nwin <= 64) {
+            if (nwin <= dense) {
                 for (int o = 0; o < nwin; ++o) {
                     overlaps.push_back(o);
                 }
@@ -348,7 +356,9 @@ int main(int argc, char** argv) {
                     vh::Hasher h;
                     h.i(nfft).i(nwin).i(wi).i(ov);
                     vh::Rng r = vh::rng_for("stft", h.get());
-                    check_stft(nfft, nwin, wins[wi], ov, r);
+                    for (int rep = 0; rep < (thorough ? 4 : 1); ++rep) {
+                        check_stft(nfft, nwin, wins[wi], ov, r);
+                    }
                 }
             }
         }
